@@ -31,6 +31,19 @@ def run(tier):
     for ch, cp in sorted(JSON_ESCAPES.items()):
         rep.check(named.get(ord(ch)) == cp, "json-escape", "\\" + ch, "the JSON escape \\%s does not decode to U+%04X" % (ch, cp), site=info["fn"].span)
     rep.check(hexlen.get(ord("u")) == 4, "json-escape", "\\u", "\\u does not read four hex digits", site=info["fn"].span)
+    # RFC 8259: the four digits of \uXXXX may be written in either case: is_hex / as_hex folded over 0-9, a-f, A-F
+    from engine import fold as _fold
+    badhex = []
+    try:
+        tab = _fold.predicate_table(F, "saphyr_parser::char_traits::is_hex")
+        for chx in "0123456789abcdefABCDEF":
+            if ord(chx) not in tab:
+                badhex.append("is_hex(%r) is false" % chx)
+            elif _fold.Folder(F).call("saphyr_parser::char_traits::as_hex", [ord(chx)]) != int(chx, 16):
+                badhex.append("as_hex(%r) is not %d" % (chx, int(chx, 16)))
+    except (_fold.Unsupported, _fold.Diverged) as ex:
+        badhex.append("cannot fold: %s" % ex)
+    rep.check(not badhex, "json-escape", "\\u-digits", "a hex digit of a \\u escape is refused or misread: %s" % "; ".join(badhex[:4]), site=info["fn"].span)
     # (b) literals and number path
     pfc = F.fn(C08.SC + "::parse_from_cow")
     found = {}
@@ -160,4 +173,7 @@ def run(tier):
                   "sequence (a test that excludes flow_mapping_started): a JSON object below an array may have a line break between a member name and ':'",
                   site=fvf.span)
     rep.floor("same-line requirements in fetch_value", nline, 1)
+    # the position at which an adjacent value is allowed is an absolute index: every comparison with it uses the cursor's index
+    from . import units
+    units.check(rep, F, rule="adjacent-value-coordinate")
     return rep
